@@ -79,9 +79,12 @@ Definition project_envs (st : store) (items : list lexpr) (es : list env) : list
   map (fun en => map (item_val st en) items) es.
 
 (** * The plans the front ends really build (gql_translator.rs / cypher_translator.rs), clause
-    placement included.  GQL: Return(Sort(Limit(Skip(Filter(chain))))) — SKIP/LIMIT end up below
-    ORDER BY (C08-K6); Cypher: Limit(Skip(Sort(Return(Filter(chain))))) — ORDER BY ends up above
-    RETURN (C08-K9).  Aggregating returns: Aggregate(Filter(chain)). *)
+    placement included.
+    GQL (since ce12a2a): Return(Limit(Skip(Sort(Filter(chain))))) — ORDER BY below SKIP/LIMIT as it
+    should be, RETURN (and with it DISTINCT) on top, i.e. DISTINCT is still applied AFTER SKIP/LIMIT
+    (C08-K6 in its remaining form); aggregating returns: Limit(Skip(Aggregate(Filter(chain)))).
+    Cypher: Limit(Skip(Sort(Return(Filter(chain))))) — ORDER BY ends up above RETURN (C08-K9).
+    The [_pre] shapes are what the translators built before ce12a2a / a5bb467. *)
 Definition sort_keys (ks : list okey) : list (lexpr * bool) :=
   flat_map (fun k => match k with OEnv e desc => [(e, desc)] | OCol _ _ => [] end) ks.
 Definition opt_skip (s : option nat) (p : lop) : lop := match s with Some n => LSkip n p | None => p end.
@@ -91,21 +94,48 @@ Definition ret_items (items : list lexpr) : list (lexpr * option string) := map 
 Definition gql_plan_of (q : query) : lop :=
   let body := where_plan (q_where q) (chain_plan (q_pat q)) in
   match q_ret q with
-  | RPlain items d => LReturn (ret_items items) d (opt_sort (q_order q) (opt_limit (q_limit q) (opt_skip (q_skip q) body)))
-  | RAgg keys aggs => LAggregate keys aggs body
+  | RPlain items d => LReturn (ret_items items) d (opt_limit (q_limit q) (opt_skip (q_skip q) (opt_sort (q_order q) body)))
+  | RAgg keys aggs => opt_limit (q_limit q) (opt_skip (q_skip q) (LAggregate keys aggs body))
   end.
-(** Cypher's count(expr) becomes AggregateFunction::Count (count-star semantics: C08-K12) where GQL
-    emits CountNonNull *)
-Definition cypher_agg (a : aggx) : aggx :=
-  match ag_fn a with
-  | ACountNN => mkAgg ACount (ag_arg a) (ag_distinct a) (ag_alias a)
-  | _ => a
+(** before ce12a2a: SKIP/LIMIT below ORDER BY and below the aggregate *)
+Definition gql_plan_pre_of (q : query) : lop :=
+  let body := where_plan (q_where q) (chain_plan (q_pat q)) in
+  match q_ret q with
+  | RPlain items d => LReturn (ret_items items) d (opt_sort (q_order q) (opt_limit (q_limit q) (opt_skip (q_skip q) body)))
+  | RAgg keys aggs => LAggregate keys aggs (opt_limit (q_limit q) (opt_skip (q_skip q) body))
   end.
 Definition cypher_plan_of (q : query) : lop :=
   let body := where_plan (q_where q) (chain_plan (q_pat q)) in
   match q_ret q with
   | RPlain items d => opt_limit (q_limit q) (opt_skip (q_skip q) (opt_sort (q_order q) (LReturn (ret_items items) d body)))
-  | RAgg keys aggs => LAggregate keys (map cypher_agg aggs) body
+  | RAgg keys aggs => LAggregate keys aggs body
+  end.
+(** before a5bb467 Cypher's count(expr) became AggregateFunction::Count (count-star semantics) *)
+Definition cypher_agg_pre (a : aggx) : aggx :=
+  match ag_fn a with
+  | ACountNN => mkAgg ACount (ag_arg a) (ag_distinct a) (ag_alias a)
+  | _ => a
+  end.
+Definition cypher_plan_pre_of (q : query) : lop :=
+  let body := where_plan (q_where q) (chain_plan (q_pat q)) in
+  match q_ret q with
+  | RPlain items d => opt_limit (q_limit q) (opt_skip (q_skip q) (opt_sort (q_order q) (LReturn (ret_items items) d body)))
+  | RAgg keys aggs => LAggregate keys (map cypher_agg_pre aggs) body
+  end.
+(** before 36a1196 plan_return never looked at ReturnOp.distinct: the plan behaved like the same
+    plan with every DISTINCT flag cleared *)
+Fixpoint clear_distinct (p : lop) : lop :=
+  match p with
+  | LScan x l => LScan x l
+  | LExpand f t e d ty mn mx i => LExpand f t e d ty mn mx (clear_distinct i)
+  | LFilter e i => LFilter e (clear_distinct i)
+  | LReturn its _ i => LReturn its false (clear_distinct i)
+  | LProject its i => LProject its (clear_distinct i)
+  | LSort ks i => LSort ks (clear_distinct i)
+  | LSkip n i => LSkip n (clear_distinct i)
+  | LLimit n i => LLimit n (clear_distinct i)
+  | LDistinct i => LDistinct (clear_distinct i)
+  | LAggregate g a i => LAggregate g a (clear_distinct i)
   end.
 (** what the engine hands out for a plan *)
 Definition plan_rows (st : store) (p : lop) : res (list (list val)) :=
